@@ -37,6 +37,7 @@ import QV.Lemmas.Observables
 import QV.Props.C01
 
 namespace QV.Props
+namespace C08
 open QV QV.Obs Finset
 open scoped ComplexConjugate
 
@@ -380,4 +381,5 @@ example : let am : RBM ℝ 2 3 := ⟨fun i j => (i.val : ℝ) - j.val + 0.5, fun
     ∑ σ, bornPure psi σ * sigmaYApply (ImpState.pure psi) false σ = (expectation psi (magnetOp pauliY)).re :=
   (C08_pure_states _ (fun σ => (C08_rbm_psi_ne_zero _ _ σ).2) 1).2.1
 
+end C08
 end QV.Props
